@@ -45,4 +45,9 @@ pub fn cell_peek<T: Copy>(ch: &Channel<T>, idx: usize) -> Option<T> {
     unsafe { *ch.storage[idx - 1].peek() }
 }
 
+/// Run `f` on the content of cell `idx` (1-based), no access event.
+pub fn cell_with<T, R, F: FnOnce(&Option<T>) -> R>(ch: &Channel<T>, idx: usize, f: F) -> R {
+    unsafe { f(&*ch.storage[idx - 1].peek()) }
+}
+
 pub const NSLOTS: usize = SLOTS;
